@@ -4,10 +4,11 @@ All randomness comes from the random.Random passed in.  No sharing of node objec
 """
 from decimal import Decimal
 
-WORDS = ["a", "b", "foo", "bar", "x1", "*", "w?ld*", "TO", "1", "2024-01-01", "é", "ba\\ r", "a b"]
-PHRASES = ['"a"', '"a b"', '""', '"x \\" y"', '"l1\nl2"', '"*"']
+WORDS = ["a", "b", "foo", "bar", "x1", "*", "w?ld*", "TO", "1", "2024-01-01", "é", "ba\\ r", "a b",
+         "foo\\*", "Foo", "cafe\u0301", "x\u00b2"]
+PHRASES = ['"a"', '"a b"', '""', '"x \\" y"', '"l1\nl2"', '"*"', '"A b"', '"e\u0301"']
 REGEXES = ['/a/', '/a.*b/', '//']
-FIELDS = ["f", "title", "a.b", "n.o.h", "x y", "", "f_1", "é", "xT12"]
+FIELDS = ["f", "title", "a.b", "n.o.h", "x y", "", "f_1", "é", "xT12", "Title", "e\u0301"]
 SPACES = ["", " ", "  ", "\t", "\n", "　 "]
 DEGREES = [None, "1", "2", "0.5", ".5", "2.0", "007", "10", "100", "0.0000001", "1.50", 1, 2, 0, -1, "0", "0.0", "00",
            Decimal("1.50"), Decimal("0.1"), "1234567890123456789012345678901"]
